@@ -110,6 +110,9 @@ func runNativeFuzz(perTarget int64, parallel int) *fuzzResult {
 		cmd.Stderr = &out
 		err := cmd.Run()
 		o := out.String()
+		if od := os.Getenv("VERIF_OUT"); od != "" {
+			os.WriteFile(filepath.Join(od, "fuzz-"+target+".log"), out.Bytes(), 0o644)
+		}
 		if m := execsRe.FindAllStringSubmatch(o, -1); len(m) > 0 {
 			n, _ := strconv.ParseInt(m[len(m)-1][1], 10, 64)
 			res.execs[target] = n
